@@ -434,6 +434,8 @@ def plant_all(decls, ns, rng):
             # a new variable of an unknown / unsupported type
             if k != 'U':
                 out.append(('stdlib-fb', 'P0029', mut(i, (k, d[1], vs + [var(ns.n + 5, 'v', ('n', TON))], body))))
+                # ... and the instance invoked as well (the standard function block has no declaration to look the call up in)
+                out.append(('stdlib-fb-called', 'P0029', mut(i, (k, d[1], vs + [var(ns.n + 5, 'v', ('n', TON))], body + [('c', ns.n + 5, [], [], [])]))))
             out.append(('unknown-type', 'P0022', mut(i, (k, d[1], vs + [var(ns.n + 6, 'v', ('n', 7997))], body))))
             # a variable that only a neighbouring POU declares (scopes must not leak from one POU to the next)
             own = {v['name'] for v in vs}
